@@ -422,6 +422,28 @@ let apply (toks : string list) (buf : Buffer.t) =
      end
    | "fault" -> armed := Some (arr.(1), u 2)
    | "dbg" -> ()
+   | "xrg" ->
+     (* a ragged batch is refused by Batch::new (a panic): nothing reaches the world *)
+     let ws = u 1 in
+     ensure ws;
+     (match !worlds.(ws) with
+      | Some _ ->
+        ret := "panic";
+        (* the values handed over are dropped by the unwinding *)
+        let k = u 3 in
+        let rows = u (4 + k) and j = u (5 + k) and longer = u (6 + k) = 1 in
+        let pos = ref (7 + k) in
+        let strs = ref [] in
+        for idx = 0 to k - 1 do
+          let c = u (4 + idx) in
+          let n = if idx = j then (if longer then rows + 1 else rows - 1) else rows in
+          for _ = 1 to n do
+            strs := Printf.sprintf "D:%d:%s" c (string_of_n (nvc c !pos)) :: !strs;
+            incr pos
+          done
+        done;
+        evs := "ev " ^ String.concat " " (List.sort compare !strs)
+      | None -> ())
    | "mde" ->
      (* the source world does not exist: the harness only clears the destination *)
      let src = u 1 and dst = u 2 in
